@@ -271,17 +271,17 @@ impl Address {
 
         let (checksum_bytes, checksum) = match addr_type {
             AddressType::Standard | AddressType::SubAddress => {
-                if bytes.len() < 69 {
+                if bytes.len() != 69 {
                     return Err(Error::Encoding(
-                        "from_bytes: Not enough bytes to decode the Address (<69)",
+                        "from_bytes: Invalid number of bytes to decode the Address (!=69)",
                     ));
                 }
                 (&bytes[0..65], &bytes[65..69])
             }
             AddressType::Integrated(_) => {
-                if bytes.len() < 77 {
+                if bytes.len() != 77 {
                     return Err(Error::Encoding(
-                        "from_bytes: Not enough bytes to decode the Address (<77)",
+                        "from_bytes: Invalid number of bytes to decode the Address (!=77)",
                     ));
                 }
                 (&bytes[0..73], &bytes[73..77])
